@@ -179,7 +179,7 @@ func c02AcceptRets(fn *ssa.Function, idx int) []*ssa.Return {
 func c02LoopOver(fn *ssa.Function, coll ssa.Value) []*an.Loop {
 	var out []*an.Loop
 	for _, l := range an.Loops(fn) {
-		if rc := l.RangeColl(); rc != nil && an.Equiv(rc, coll) {
+		if rc := c02RangeColl(l); rc != nil && an.Equiv(rc, coll) {
 			out = append(out, l)
 		}
 	}
@@ -511,7 +511,7 @@ func c02ZeroTests(fn *ssa.Function, isV func(ssa.Value) bool) map[ssa.Value]bool
 	out := map[ssa.Value]bool{}
 	isZero := func(x ssa.Value) bool {
 		x = an.Unwrap(x)
-		if c02Static(x, "zeroVal") != nil {
+		if c02CallOfKind(x, "zero") != nil {
 			return true
 		}
 		if k, ok := x.(*ssa.Const); ok {
@@ -522,7 +522,7 @@ func c02ZeroTests(fn *ssa.Function, isV func(ssa.Value) bool) map[ssa.Value]bool
 	for _, in := range an.Instrs(fn, false) {
 		switch x := in.(type) {
 		case *ssa.Call:
-			if c02Static(x, "isZeroVal") != nil && len(x.Call.Args) == 1 && isV(x.Call.Args[0]) {
+			if c02CallOfKind(x, "iszero") != nil && len(x.Call.Args) == 1 && isV(x.Call.Args[0]) {
 				out[x] = true
 			}
 		case *ssa.BinOp:
@@ -572,7 +572,7 @@ func c02Filter(v ssa.Value, depth int) (c02FilterSpec, bool) {
 		}
 		return nil, false
 	}
-	if c02Strip(an.FuncName(f)) == c02P+".filterMsgs" {
+	if c02HelperKind(f) == "filter" {
 		a := call.Call.Args
 		if len(a) != 6 {
 			return c02FilterSpec{}, false
@@ -853,6 +853,20 @@ var c02Mutants = []Mutant{
 	{ID: "C02-Q5-commit-on-quorum-commits", File: "core/qbft/qbft.go", Expect: "Q5|COMMIT",
 		Old: "\t\t\t\tqCommit = justification\n",
 		New: "\t\t\t\tqCommit = justification\n\t\t\t\t_ = broadcastMsg(MsgCommit, msg.Value(), nil)\n"},
+	// added with the hardening round (dedup recognised by its set of seen sources; difference-form comparisons)
+	{ID: "C02-Q1-single-prpv-set-per-element", File: "core/qbft/qbft.go", Expect: "Q1|getSingleJustifiedPrPv",
+		Old: "\t\tif !uniq(msg) {\n\t\t\treturn 0, zeroVal[V](), false\n\t\t}\n\n\t\tif count == 0 {",
+		New: "\t\t_ = uniq\n\n\t\tif seen := map[int64]bool{}; seen[msg.Source()] {\n\t\t\treturn 0, zeroVal[V](), false\n\t\t}\n\n\t\tif count == 0 {"},
+	{ID: "C02-Q1-roundchange-set-never-recorded", File: "core/qbft/qbft.go", Expect: "Q1|isJustifiedRoundChange",
+		Old:  "\t\tif !uniq(prepare) {\n\t\t\treturn false\n\t\t}",
+		New:  "\t\tif seenSrc[prepare.Source()] {\n\t\t\treturn false\n\t\t}",
+		More: [][2]string{{"\tuniq := uniqSource[I, V, C]()\n\tfor _, prepare := range prepares {", "\tseenSrc := map[int64]bool{}\n\tfor _, prepare := range prepares {"}}},
+	{ID: "C02-Q1-decided-difference-off-by-one", File: "core/qbft/qbft.go", Expect: "Q1|isJustifiedDecided",
+		Old: "\treturn len(commits) >= d.Quorum()\n}",
+		New: "\treturn d.Quorum()-len(commits) <= 1\n}"},
+	{ID: "C02-Q1-qrc-set-asked-after-append", File: "core/qbft/qbft.go", Expect: "Q1|getJustifiedQrc",
+		Old: "\t\t\tif !uniq(rc) {\n\t\t\t\tcontinue\n\t\t\t}",
+		New: "\t\t\tif rc.PreparedRound() == pr {\n\t\t\t\tqrc = append(qrc, rc)\n\t\t\t}\n\n\t\t\tif !uniq(rc) {\n\t\t\t\tcontinue\n\t\t\t}"},
 	// Q5
 	{ID: "C02-Q5-roundchange-zero-pv", File: "core/qbft/qbft.go", Expect: "Q5|carries preparedValue",
 		Old: "zeroVal[V](), preparedRound, preparedValue, preparedJustification)",
